@@ -19,8 +19,11 @@ func CopyYNode(n *yaml.Node) *yaml.Node {
 		return nil
 	}
 	c := *n
-	if len(n.Content) > 0 {
+	if n.Content != nil {
 		// Using Go 'copy' here doesn't yield independent slices.
+		// Allocate even for an empty slice: one that was truncated in place
+		// (length 0, spare capacity) would otherwise share its backing array
+		// with the copy, and appends to either node would show up in both.
 		c.Content = make([]*Node, len(n.Content))
 		for i, item := range n.Content {
 			c.Content[i] = CopyYNode(item)
